@@ -7,7 +7,7 @@ BASE = {'ev': '', 'p': '', 'op': '', 'job': 0, 'qi': 0, 'b': 0, 'n': 0, 'res': '
         'st': '', 'out': '', 'items': [], 'ecls': '', 'ekey': 0, 'wss': '', 'conc': 0, 'pendingb': 0,
         'msub': 0, 'mcomp': 0, 'msucc': 0, 'mfail': 0, 'blocked': [], 'pending': 0, 'qpending': [], 'processing': 0, 'idle': 0,
         'sub': 0, 'comp': 0, 'succ': 0, 'fail': 0, 'jst': {'0': ''}, 'cpool': 0, 'cloop': 0, 'creaper': 0, 'cctxl': 0, 'cdrain': 0,
-        'peak': 0, 'errs': 0, 'settled': False, 'cons': 0, 'csub': [], 'eseq': 0, 'ack': '', 'refused': False, 'ep': '', 'line': 0}
+        'peak': 0, 'curmax': 0, 'errs': 0, 'settled': False, 'cons': 0, 'csub': [], 'eseq': 0, 'ack': '', 'refused': False, 'ep': '', 'line': 0}
 
 
 def errclass(s):
@@ -78,13 +78,22 @@ def normalise(ep, ncpu):
     jobkeys = [str(j['key']) for j in out[0]['jobs']]
     pend_items = {}
 
+    curmax = [0]
+
     def mk(**kw):
         d = dict(BASE)
         d['ep'] = prog['id']
         d.update(kw)
+        # the largest in-flight count (curProcessing, what NumProcessing() returns) the state projection showed at any hook since
+        # the previous line: a reader at that moment would have obtained it
+        d['curmax'] = curmax[0]
+        curmax[0] = 0
         return d
     for e in ep.get('events', []):
         ev = e.get('ev')
+        st = e.get('st')
+        if isinstance(st, dict) and isinstance(st.get('cur'), int) and st['cur'] > curmax[0] and (prog['cfg'].get('consumers') or 1) == 1:
+            curmax[0] = st['cur']
         if ev == 'call':
             items = [it['job'] for it in (e.get('items') or [])]
             pend_items[e['p']] = items
